@@ -1295,10 +1295,13 @@ func (cw *ColWip) writeToBloom(buf []byte, bi *BloomIndex, numRecs uint16,
 /*
 Adds the fullWord and sub-words (lowercase as well) to the bloom
 Subwords are gotten by splitting the fullWord by whitespace
-NOTE: This function may modify the incoming byte slice
 */
 func addToBlockBloomBothCases(blockBloom *bloom.BloomFilter, fullWord []byte) uint32 {
-	blockWordCount, err := addToBlockBloomBothCasesWithBuf(blockBloom, fullWord, fullWord)
+	// The work buffer must not be the word itself: the lower-cased sub-words are
+	// written to the start of the work buffer while the rest of the word is still
+	// to be read.
+	workBuf := make([]byte, len(fullWord))
+	blockWordCount, err := addToBlockBloomBothCasesWithBuf(blockBloom, fullWord, workBuf)
 	if err != nil {
 		log.Errorf("addToBlockBloomBothCases: err adding bloom: err: %v", err)
 	}
